@@ -193,6 +193,10 @@ WORK_BUDGET = 15.0
 
 def work_inputs(full):
 	out = []
+	for v in wire.NUMERIC_BOMBS:
+		for f in FIELDS + [b'Range', b'Accept', b'TE', b'Accept-Encoding']:
+			out.append(('server', b'POST / HTTP/1.1\r\nHost: h\r\n%s: %s\r\nContent-Length: 0\r\n\r\n' % (f, v), 0))
+			out.append(('client', b'HTTP/1.1 200 OK\r\n%s: %s\r\nContent-Length: 0\r\n\r\n' % (f, v), 0))
 	for run in RUNS:
 		for tail in TAILS:
 			v = run + tail
